@@ -1,38 +1,70 @@
-//! multiboot2: boot information loading, walking, decoding.
+//! multiboot2: boot information loading, walking, typed getters, field decoding.
+//! Pure API binding: which accessor a (kind, field) name stands for and how wide
+//! its return type is. No expected values.
 
 use super::{Ctx, It};
 use crate::out;
-use multiboot2::{BootInformation, BootInformationHeader};
-use multiboot2_common::MaybeDynSized;
+use multiboot2::{BootInformation, BootInformationHeader, FramebufferType, MaybeDynSized};
 use serde_json::{json, Value};
 use std::mem::size_of_val;
+
+type Bi = &'static BootInformation<'static>;
 
 pub fn dispatch(ctx: &mut Ctx, op: &str, call: &Value) -> Option<Value> {
     Some(match op {
         "load" => load(ctx, call),
-        "tags" => {
+        "tags" | "module_tags" | "efi_areas" | "elf_sections" | "elf_sections_deprecated" => {
             let id = out::arg_u64(call, "it");
-            match ctx.bi_ref() {
-                None => out::skipped(),
-                Some(bi) => {
-                    let it = bi.tags();
-                    ctx.its.insert(id, It::Tags(it));
-                    out::unit()
+            let bi = match ctx.bi_ref() {
+                None => return Some(out::skipped()),
+                Some(bi) => bi,
+            };
+            let it = match op {
+                "tags" => It::Tags(bi.tags()),
+                "module_tags" => It::Mods(bi.module_tags()),
+                "efi_areas" => match bi.efi_memory_map_tag() {
+                    None => return Some(out::none()),
+                    Some(t) => It::Efi(Box::new(t.memory_areas())),
+                },
+                "elf_sections" => match bi.elf_sections_tag() {
+                    None => return Some(out::none()),
+                    Some(t) => It::Elf(t.sections()),
+                },
+                _ => {
+                    #[allow(deprecated)]
+                    match bi.elf_sections() {
+                        None => return Some(out::none()),
+                        Some(i) => It::Elf(i),
+                    }
                 }
-            }
-        }
-        "module_tags" => {
-            let id = out::arg_u64(call, "it");
-            match ctx.bi_ref() {
-                None => out::skipped(),
-                Some(bi) => {
-                    let it = bi.module_tags();
-                    ctx.its.insert(id, It::Mods(it));
-                    out::unit()
-                }
-            }
+            };
+            ctx.its.insert(id, it);
+            out::unit()
         }
         "next" => next(ctx, call),
+        "len" => {
+            let id = out::arg_u64(call, "it");
+            match ctx.its.get(&id) {
+                None => out::skipped(),
+                Some(It::Efi(i)) => out::val(i.len_() as u64, 8),
+                Some(It::Elf(i)) => out::val(i.len() as u64, 8),
+                Some(_) => out::unsupported(),
+            }
+        }
+        "size_hint" => {
+            let id = out::arg_u64(call, "it");
+            let sh = match ctx.its.get(&id) {
+                None => return Some(out::skipped()),
+                Some(It::Efi(i)) => i.size_hint_(),
+                Some(It::Elf(i)) => i.size_hint(),
+                Some(It::Tags(i)) => i.size_hint(),
+                Some(It::Mods(i)) => i.size_hint(),
+                Some(It::HTags(i)) => i.size_hint(),
+                Some(It::Dummy(i)) => i.size_hint(),
+            };
+            json!({"k": "hint", "lo": out::le(sh.0 as u64, 8),
+                   "hi": match sh.1 { None => out::none(), Some(h) => out::some(out::le(h as u64, 8)) }})
+        }
         "clone" => {
             let id = out::arg_u64(call, "it");
             let to = out::arg_u64(call, "to");
@@ -48,6 +80,26 @@ pub fn dispatch(ctx: &mut Ctx, op: &str, call: &Value) -> Option<Value> {
             ctx.its.insert(to, c);
             out::unit()
         }
+        "get" => match ctx.bi_ref() {
+            None => out::skipped(),
+            Some(bi) => get(ctx, bi, out::arg_str(call, "kind")),
+        },
+        "field" => match ctx.bi_ref() {
+            None => out::skipped(),
+            Some(bi) => field(ctx, bi, out::arg_str(call, "kind"), out::arg_str(call, "f")),
+        },
+        "str" => match ctx.bi_ref() {
+            None => out::skipped(),
+            Some(bi) => string(ctx, bi, out::arg_str(call, "kind")),
+        },
+        "area" => match ctx.bi_ref() {
+            None => out::skipped(),
+            Some(bi) => area(ctx, bi, out::arg_u64(call, "i") as usize, out::arg_str(call, "f")),
+        },
+        "dbg" => match ctx.bi_ref() {
+            None => out::skipped(),
+            Some(bi) => dbg(ctx, bi, out::arg_str(call, "what"), call),
+        },
         _ => return None,
     })
 }
@@ -75,16 +127,447 @@ fn load(ctx: &mut Ctx, call: &Value) -> Value {
     }
 }
 
-pub fn tag_json(ctx: &Ctx, t: &multiboot2::DynSizedStructure<multiboot2::TagHeader>) -> Value {
-    let h = t.header();
-    json!({
-        "at": ctx.off(t as *const multiboot2::DynSizedStructure<multiboot2::TagHeader>),
-        "typ": out::le(u32::from(h.typ) as u64, 4),
-        "size": out::le(h.size as u64, 4),
-        "pat": ctx.off(t.payload().as_ptr()),
-        "plen": out::num(t.payload().len()),
-        "sv": out::num(size_of_val(t)),
-    })
+/// reference to a (possibly dynamically sized) view: offset and in-memory size
+fn refv<T: ?Sized>(ctx: &Ctx, t: &T) -> Value {
+    json!({"at": ctx.off(t as *const T), "sv": out::num(size_of_val(t))})
+}
+
+fn slicev<T>(ctx: &Ctx, s: &[T]) -> Value {
+    json!({"k": "ref", "at": ctx.off(s.as_ptr()), "n": out::num(s.len()), "len": out::num(size_of_val(s))})
+}
+
+fn opt_ref<T: ?Sized>(ctx: &Ctx, o: Option<&T>) -> Value {
+    match o {
+        None => out::none(),
+        Some(t) => out::some(refv(ctx, t)),
+    }
+}
+
+fn get(ctx: &Ctx, bi: Bi, kind: &str) -> Value {
+    match kind {
+        "apm" => opt_ref(ctx, bi.apm_tag()),
+        "meminfo" => opt_ref(ctx, bi.basic_memory_info_tag()),
+        "bootloader" => opt_ref(ctx, bi.boot_loader_name_tag()),
+        "bootdev" => opt_ref(ctx, bi.bootdev_tag()),
+        "cmdline" => opt_ref(ctx, bi.command_line_tag()),
+        "efi_bs" => opt_ref(ctx, bi.efi_bs_not_exited_tag()),
+        "efi_mmap" => opt_ref(ctx, bi.efi_memory_map_tag()),
+        "efi32" => opt_ref(ctx, bi.efi_sdt32_tag()),
+        "efi64" => opt_ref(ctx, bi.efi_sdt64_tag()),
+        "efi32_ih" => opt_ref(ctx, bi.efi_ih32_tag()),
+        "efi64_ih" => opt_ref(ctx, bi.efi_ih64_tag()),
+        "elf" => opt_ref(ctx, bi.elf_sections_tag()),
+        "framebuffer" => match bi.framebuffer_tag() {
+            None => out::none(),
+            Some(Ok(t)) => out::some(out::ok(refv(ctx, t))),
+            Some(Err(e)) => out::some(unknown_fb(&e)),
+        },
+        "load_base_addr" => opt_ref(ctx, bi.load_base_addr_tag()),
+        "mmap" => opt_ref(ctx, bi.memory_map_tag()),
+        "network" => opt_ref(ctx, bi.network_tag()),
+        "rsdpv1" => opt_ref(ctx, bi.rsdp_v1_tag()),
+        "rsdpv2" => opt_ref(ctx, bi.rsdp_v2_tag()),
+        "smbios" => opt_ref(ctx, bi.smbios_tag()),
+        "vbe" => opt_ref(ctx, bi.vbe_info_tag()),
+        "end" => opt_ref(ctx, bi.get_tag::<multiboot2::EndTag>()),
+        "module" => opt_ref(ctx, bi.get_tag::<multiboot2::ModuleTag>()),
+        _ => out::unsupported(),
+    }
+}
+
+/// The error type is not exported; the byte it carries is the last integer of its text.
+fn unknown_fb<E: std::fmt::Display + std::fmt::Debug>(e: &E) -> Value {
+    let text = format!("{e} {e:?}");
+    let mut best: Option<u64> = None;
+    let mut cur = String::new();
+    for ch in text.chars().chain(std::iter::once(' ')) {
+        if ch.is_ascii_digit() {
+            cur.push(ch);
+        } else if !cur.is_empty() {
+            if best.is_none() {
+                best = cur.parse().ok();
+            }
+            cur.clear();
+        }
+    }
+    match best {
+        Some(b) if b < 256 => json!({"k": "err", "e": "Unknown", "v": [b]}),
+        _ => json!({"k": "err", "e": "Unknown", "v": []}),
+    }
+}
+
+macro_rules! tag_or_none {
+    ($e:expr) => {
+        match $e {
+            None => return out::none(),
+            Some(t) => t,
+        }
+    };
+}
+
+fn hdr_field<T: MaybeDynSized<Header = multiboot2::TagHeader> + ?Sized>(t: &T, f: &str) -> Option<Value> {
+    match f {
+        "typ" => Some(out::val(u32::from(t.header().typ) as u64, 4)),
+        "size" => Some(out::val(t.header().size as u64, 4)),
+        _ => None,
+    }
+}
+
+fn utf8res(ctx: &Ctx, r: Result<&str, std::str::Utf8Error>) -> Value {
+    match r {
+        Ok(s) => out::ok(json!({"at": ctx.off(s.as_ptr()), "len": out::num(s.len())})),
+        Err(_) => out::err("Utf8"),
+    }
+}
+
+fn field(ctx: &Ctx, bi: Bi, kind: &str, f: &str) -> Value {
+    macro_rules! common {
+        ($t:expr) => {
+            if let Some(v) = hdr_field($t, f) {
+                return v;
+            }
+        };
+    }
+    match kind {
+        "apm" => {
+            let t = tag_or_none!(bi.apm_tag());
+            common!(t);
+            match f {
+                "version" => out::val(t.version() as u64, 2),
+                "cseg" => out::val(t.cseg() as u64, 2),
+                "offset" => out::val(t.offset() as u64, 4),
+                "cset_16" => out::val(t.cset_16() as u64, 2),
+                "dseg" => out::val(t.dseg() as u64, 2),
+                "flags" => out::val(t.flags() as u64, 2),
+                "cseg_len" => out::val(t.cseg_len() as u64, 2),
+                "cseg_16_len" => out::val(t.cseg_16_len() as u64, 2),
+                "dseg_len" => out::val(t.dseg_len() as u64, 2),
+                _ => out::unsupported(),
+            }
+        }
+        "meminfo" => {
+            let t = tag_or_none!(bi.basic_memory_info_tag());
+            common!(t);
+            match f {
+                "memory_lower" => out::val(t.memory_lower() as u64, 4),
+                "memory_upper" => out::val(t.memory_upper() as u64, 4),
+                _ => out::unsupported(),
+            }
+        }
+        "bootdev" => {
+            let t = tag_or_none!(bi.bootdev_tag());
+            common!(t);
+            match f {
+                "biosdev" => out::val(t.biosdev() as u64, 4),
+                "slice" => out::val(t.slice() as u64, 4),
+                "part" => out::val(t.part() as u64, 4),
+                _ => out::unsupported(),
+            }
+        }
+        "bootloader" => {
+            let t = tag_or_none!(bi.boot_loader_name_tag());
+            common!(t);
+            match f {
+                "typ()" => out::val(u32::from(t.typ()) as u64, 4),
+                "size()" => out::val(t.size() as u64, 8),
+                _ => out::unsupported(),
+            }
+        }
+        "cmdline" => {
+            let t = tag_or_none!(bi.command_line_tag());
+            common!(t);
+            out::unsupported()
+        }
+        "efi32" => {
+            let t = tag_or_none!(bi.efi_sdt32_tag());
+            common!(t);
+            match f {
+                "sdt_address" => out::val(t.sdt_address() as u64, 8),
+                _ => out::unsupported(),
+            }
+        }
+        "efi64" => {
+            let t = tag_or_none!(bi.efi_sdt64_tag());
+            common!(t);
+            match f {
+                "sdt_address" => out::val(t.sdt_address() as u64, 8),
+                _ => out::unsupported(),
+            }
+        }
+        "efi32_ih" => {
+            let t = tag_or_none!(bi.efi_ih32_tag());
+            common!(t);
+            match f {
+                "image_handle" => out::val(t.image_handle() as u64, 8),
+                _ => out::unsupported(),
+            }
+        }
+        "efi64_ih" => {
+            let t = tag_or_none!(bi.efi_ih64_tag());
+            common!(t);
+            match f {
+                "image_handle" => out::val(t.image_handle() as u64, 8),
+                _ => out::unsupported(),
+            }
+        }
+        "efi_bs" => {
+            let t = tag_or_none!(bi.efi_bs_not_exited_tag());
+            common!(t);
+            out::unsupported()
+        }
+        "load_base_addr" => {
+            let t = tag_or_none!(bi.load_base_addr_tag());
+            common!(t);
+            match f {
+                "load_base_addr" => out::val(t.load_base_addr() as u64, 4),
+                _ => out::unsupported(),
+            }
+        }
+        "module" => {
+            let t = tag_or_none!(bi.get_tag::<multiboot2::ModuleTag>());
+            common!(t);
+            match f {
+                "start_address" => out::val(t.start_address() as u64, 4),
+                "end_address" => out::val(t.end_address() as u64, 4),
+                "module_size" => out::val(t.module_size() as u64, 4),
+                _ => out::unsupported(),
+            }
+        }
+        "mmap" => {
+            let t = tag_or_none!(bi.memory_map_tag());
+            common!(t);
+            match f {
+                "entry_size" => out::val(t.entry_size() as u64, 4),
+                "entry_version" => out::val(t.entry_version() as u64, 4),
+                "memory_areas" => slicev(ctx, t.memory_areas()),
+                _ => out::unsupported(),
+            }
+        }
+        "smbios" => {
+            let t = tag_or_none!(bi.smbios_tag());
+            common!(t);
+            match f {
+                "major" => out::val(t.major() as u64, 1),
+                "minor" => out::val(t.minor() as u64, 1),
+                "tables" => slicev(ctx, t.tables()),
+                _ => out::unsupported(),
+            }
+        }
+        "elf" => {
+            let t = tag_or_none!(bi.elf_sections_tag());
+            common!(t);
+            match f {
+                "number_of_sections" => out::val(t.number_of_sections() as u64, 4),
+                "entry_size" => out::val(t.entry_size() as u64, 4),
+                "shndx" => out::val(t.shndx() as u64, 4),
+                _ => out::unsupported(),
+            }
+        }
+        "efi_mmap" => {
+            let t = tag_or_none!(bi.efi_memory_map_tag());
+            common!(t);
+            out::unsupported()
+        }
+        "network" => {
+            let t = tag_or_none!(bi.network_tag());
+            common!(t);
+            match f {
+                "payload" => slicev(ctx, MaybeDynSized::payload(t)),
+                _ => out::unsupported(),
+            }
+        }
+        "framebuffer" => {
+            let t = match tag_or_none!(bi.framebuffer_tag()) {
+                Ok(t) => t,
+                Err(e) => return unknown_fb(&e),
+            };
+            common!(t);
+            match f {
+                "address" => out::val(t.address(), 8),
+                "pitch" => out::val(t.pitch() as u64, 4),
+                "width" => out::val(t.width() as u64, 4),
+                "height" => out::val(t.height() as u64, 4),
+                "bpp" => out::val(t.bpp() as u64, 1),
+                "buffer_type" => match t.buffer_type() {
+                    Err(e) => unknown_fb(&e),
+                    Ok(FramebufferType::Text) => out::ok(json!({"t": "text"})),
+                    Ok(FramebufferType::RGB { red, green, blue }) => out::ok(json!({"t": "rgb",
+                        "v": [red.position, red.size, green.position, green.size, blue.position, blue.size]})),
+                    Ok(FramebufferType::Indexed { palette }) => out::ok(json!({"t": "indexed",
+                        "at": ctx.off(palette.as_ptr()), "n": out::num(palette.len()), "len": out::num(size_of_val(palette))})),
+                },
+                _ => out::unsupported(),
+            }
+        }
+        "rsdpv1" => {
+            let t = tag_or_none!(bi.rsdp_v1_tag());
+            common!(t);
+            match f {
+                "signature" => utf8res(ctx, t.signature()),
+                "oem_id" => utf8res(ctx, t.oem_id()),
+                "revision" => out::val(t.revision() as u64, 1),
+                "rsdt_address" => out::val(t.rsdt_address() as u64, 8),
+                "checksum_is_valid" => out::boolean(t.checksum_is_valid()),
+                _ => out::unsupported(),
+            }
+        }
+        "rsdpv2" => {
+            let t = tag_or_none!(bi.rsdp_v2_tag());
+            common!(t);
+            match f {
+                "signature" => utf8res(ctx, t.signature()),
+                "oem_id" => utf8res(ctx, t.oem_id()),
+                "revision" => out::val(t.revision() as u64, 1),
+                "xsdt_address" => out::val(t.xsdt_address() as u64, 8),
+                "ext_checksum" => out::val(t.ext_checksum() as u64, 1),
+                "checksum_is_valid" => out::boolean(t.checksum_is_valid()),
+                _ => out::unsupported(),
+            }
+        }
+        "vbe" => {
+            let t = tag_or_none!(bi.vbe_info_tag());
+            common!(t);
+            vbe_field(t, f)
+        }
+        "end" => {
+            let t = tag_or_none!(bi.get_tag::<multiboot2::EndTag>());
+            common!(t);
+            out::unsupported()
+        }
+        _ => out::unsupported(),
+    }
+}
+
+fn vbe_field(t: &multiboot2::VBEInfoTag, f: &str) -> Value {
+    let ci = t.control_info();
+    let mi = t.mode_info();
+    match f {
+        "mode" => out::val(t.mode() as u64, 2),
+        "interface_segment" => out::val(t.interface_segment() as u64, 2),
+        "interface_offset" => out::val(t.interface_offset() as u64, 2),
+        "interface_length" => out::val(t.interface_length() as u64, 2),
+        "ci.signature" => out::valb(&{ ci.signature }),
+        "ci.version" => out::val({ ci.version } as u64, 2),
+        "ci.oem_string_ptr" => out::val({ ci.oem_string_ptr } as u64, 4),
+        "ci.capabilities" => out::val({ ci.capabilities }.bits() as u64, 4),
+        "ci.mode_list_ptr" => out::val({ ci.mode_list_ptr } as u64, 4),
+        "ci.total_memory" => out::val({ ci.total_memory } as u64, 2),
+        "ci.oem_software_revision" => out::val({ ci.oem_software_revision } as u64, 2),
+        "ci.oem_vendor_name_ptr" => out::val({ ci.oem_vendor_name_ptr } as u64, 4),
+        "ci.oem_product_name_ptr" => out::val({ ci.oem_product_name_ptr } as u64, 4),
+        "ci.oem_product_revision_ptr" => out::val({ ci.oem_product_revision_ptr } as u64, 4),
+        "mi.mode_attributes" => out::val({ mi.mode_attributes }.bits() as u64, 2),
+        "mi.window_a_attributes" => out::val({ mi.window_a_attributes }.bits() as u64, 1),
+        "mi.window_b_attributes" => out::val({ mi.window_b_attributes }.bits() as u64, 1),
+        "mi.window_granularity" => out::val({ mi.window_granularity } as u64, 2),
+        "mi.window_size" => out::val({ mi.window_size } as u64, 2),
+        "mi.window_a_segment" => out::val({ mi.window_a_segment } as u64, 2),
+        "mi.window_b_segment" => out::val({ mi.window_b_segment } as u64, 2),
+        "mi.window_function_ptr" => out::val({ mi.window_function_ptr } as u64, 4),
+        "mi.pitch" => out::val({ mi.pitch } as u64, 2),
+        "mi.resolution.0" => out::val({ mi.resolution }.0 as u64, 2),
+        "mi.resolution.1" => out::val({ mi.resolution }.1 as u64, 2),
+        "mi.character_size.0" => out::val({ mi.character_size }.0 as u64, 1),
+        "mi.character_size.1" => out::val({ mi.character_size }.1 as u64, 1),
+        "mi.number_of_planes" => out::val({ mi.number_of_planes } as u64, 1),
+        "mi.bpp" => out::val({ mi.bpp } as u64, 1),
+        "mi.number_of_banks" => out::val({ mi.number_of_banks } as u64, 1),
+        "mi.memory_model" => out::val({ mi.memory_model } as u8 as u64, 1),
+        "mi.bank_size" => out::val({ mi.bank_size } as u64, 1),
+        "mi.number_of_image_pages" => out::val({ mi.number_of_image_pages } as u64, 1),
+        "mi.red_field.size" => out::val({ mi.red_field }.size as u64, 1),
+        "mi.red_field.position" => out::val({ mi.red_field }.position as u64, 1),
+        "mi.green_field.size" => out::val({ mi.green_field }.size as u64, 1),
+        "mi.green_field.position" => out::val({ mi.green_field }.position as u64, 1),
+        "mi.blue_field.size" => out::val({ mi.blue_field }.size as u64, 1),
+        "mi.blue_field.position" => out::val({ mi.blue_field }.position as u64, 1),
+        "mi.reserved_field.size" => out::val({ mi.reserved_field }.size as u64, 1),
+        "mi.reserved_field.position" => out::val({ mi.reserved_field }.position as u64, 1),
+        "mi.direct_color_attributes" => out::val({ mi.direct_color_attributes }.bits() as u64, 1),
+        "mi.framebuffer_base_ptr" => out::val({ mi.framebuffer_base_ptr } as u64, 4),
+        "mi.offscreen_memory_offset" => out::val({ mi.offscreen_memory_offset } as u64, 4),
+        "mi.offscreen_memory_size" => out::val({ mi.offscreen_memory_size } as u64, 2),
+        _ => out::unsupported(),
+    }
+}
+
+fn string(ctx: &Ctx, bi: Bi, kind: &str) -> Value {
+    let r = match kind {
+        "cmdline" => tag_or_none!(bi.command_line_tag()).cmdline(),
+        "bootloader" => tag_or_none!(bi.boot_loader_name_tag()).name(),
+        "module" => tag_or_none!(bi.get_tag::<multiboot2::ModuleTag>()).cmdline(),
+        _ => return out::unsupported(),
+    };
+    match r {
+        Ok(s) => out::ok(json!({"at": ctx.off(s.as_ptr()), "len": out::num(s.len())})),
+        Err(multiboot2::StringError::MissingNul(_)) => out::err("MissingNul"),
+        Err(multiboot2::StringError::Utf8(_)) => out::err("Utf8"),
+    }
+}
+
+fn area(ctx: &Ctx, bi: Bi, i: usize, f: &str) -> Value {
+    let t = tag_or_none!(bi.memory_map_tag());
+    let areas = t.memory_areas();
+    let a = match areas.get(i) {
+        None => return out::none(),
+        Some(a) => a,
+    };
+    match f {
+        "at" => json!({"k": "ref", "at": ctx.off(a as *const multiboot2::MemoryArea), "n": 1, "len": out::num(size_of_val(a))}),
+        "start_address" => out::val(a.start_address(), 8),
+        "end_address" => out::val(a.end_address(), 8),
+        "size" => out::val(a.size(), 8),
+        "typ" => out::val(u32::from(a.typ()) as u64, 4),
+        _ => out::unsupported(),
+    }
+}
+
+/// Debug formatting: only the outcome class is observed (returns / panics / crashes).
+fn dbg(ctx: &Ctx, bi: Bi, what: &str, call: &Value) -> Value {
+    use std::fmt::Write;
+    let mut s = String::new();
+    macro_rules! d {
+        ($e:expr) => {
+            write!(s, "{:?}", $e).unwrap()
+        };
+    }
+    match what {
+        "bi" => d!(bi),
+        "apm" => d!(bi.apm_tag()),
+        "meminfo" => d!(bi.basic_memory_info_tag()),
+        "bootloader" => d!(bi.boot_loader_name_tag()),
+        "bootdev" => d!(bi.bootdev_tag()),
+        "cmdline" => d!(bi.command_line_tag()),
+        "efi_bs" => d!(bi.efi_bs_not_exited_tag()),
+        "efi_mmap" => d!(bi.efi_memory_map_tag()),
+        "efi32" => d!(bi.efi_sdt32_tag()),
+        "efi64" => d!(bi.efi_sdt64_tag()),
+        "efi32_ih" => d!(bi.efi_ih32_tag()),
+        "efi64_ih" => d!(bi.efi_ih64_tag()),
+        "elf" => d!(bi.elf_sections_tag()),
+        "framebuffer" => d!(bi.framebuffer_tag()),
+        "load_base_addr" => d!(bi.load_base_addr_tag()),
+        "mmap" => d!(bi.memory_map_tag()),
+        "network" => d!(bi.network_tag()),
+        "rsdpv1" => d!(bi.rsdp_v1_tag()),
+        "rsdpv2" => d!(bi.rsdp_v2_tag()),
+        "smbios" => d!(bi.smbios_tag()),
+        "vbe" => d!(bi.vbe_info_tag()),
+        "modules" => d!(bi.module_tags()),
+        "tags" => d!(bi.tags()),
+        "it" => match ctx.its.get(&out::arg_u64(call, "it")) {
+            None => return out::skipped(),
+            Some(It::Tags(i)) => d!(i),
+            Some(It::Mods(i)) => d!(i),
+            Some(It::Efi(i)) => s.push_str(&i.dbg_()),
+            Some(It::Elf(i)) => d!(i),
+            Some(It::HTags(i)) => d!(i),
+            Some(It::Dummy(i)) => d!(i),
+        },
+        _ => return out::unsupported(),
+    }
+    std::hint::black_box(&s);
+    out::unit()
 }
 
 fn next(ctx: &mut Ctx, call: &Value) -> Value {
@@ -114,6 +597,25 @@ fn next(ctx: &mut Ctx, call: &Value) -> Value {
                 "size": out::le(m.header().size as u64, 4),
                 "sv": out::num(size_of_val(m)),
             })),
+        },
+        Some(It::Efi(it)) => match it.next_() {
+            None => out::none(),
+            Some(d) => {
+                let p = (d as *const multiboot2::EFIMemoryDesc).cast::<u8>();
+                out::some(json!({
+                    "at": off(p),
+                    "al": (p as usize % 8),
+                    "ty": out::le(d.ty.0 as u64, 4),
+                    "phys_start": out::le(d.phys_start, 8),
+                    "virt_start": out::le(d.virt_start, 8),
+                    "page_count": out::le(d.page_count, 8),
+                    "att": out::le(d.att.bits(), 8),
+                }))
+            }
+        },
+        Some(It::Elf(it)) => match it.next() {
+            None => out::none(),
+            Some(s) => out::some(super::elf::section_json(&s)),
         },
         Some(_) => out::unsupported(),
     }
